@@ -177,7 +177,8 @@ def Exc.unwrap (ex : Exc) : Option GoErr :=
 
 /-- Exception.Error() / String() (runtime.go) stringify the value through `valueString()` (fix fe5ea29): the
 conversion runs under `vm.try` with a deferred recover and falls back to a description of the object, so the
-methods return for every thrown value. -/
+methods return for every thrown value — also when the conversion is interrupted or overflows the stack: the
+deferred recover swallows that too (and, since 5151c81, runs leaveAbrupt when control is outside the Runtime). -/
 def Exc.errorPanics (_ex : Exc) : Bool := false
 
 /-- Before fix fe5ea29 they called `e.val.String()` unguarded: a thrown object whose string conversion throws made
@@ -429,6 +430,7 @@ inductive Frame where
   | ji           -- JS `for (x of it) next()` over an iterator that has a return() method
   | jg | jgf     -- generator body (resumed after a yield) calling next; jgf: inside try/finally
   | ja           -- async function calling next in its synchronous part
+  | fot          -- Runtime.ForOf whose step callback calls next, over an iterator whose return() throws
   | pr           -- Promise.resolve().then(next): the rest runs as a promise job
   | jaw          -- async function: `await null; next()`: the rest runs as a promise job
   deriving DecidableEq, Repr, Inhabited
@@ -439,8 +441,11 @@ def isJS : Frame → Bool
   | js _ | ct | px | dy | pr | ji | jg | jgf | ja | jaw => true     -- ct / px / dy / pr are entered through a JS shim
   | _ => false
 /-- The frame ends the propagation of a JS exception: a catch without rethrow, or an async function (its promise
-is rejected with the value instead). -/
-def swallows : Frame → Bool | js k => k.swallows | ja => true | _ => false
+is rejected with the value instead), or Runtime.ForOf over an iterator whose return() throws (see `replaces`). -/
+def swallows : Frame → Bool | js k => k.swallows | ja => true | fot => true | _ => false
+/-- The frame replaces the exception in flight by ANOTHER exception (known finding C14
+`forof-return-replaces-exception`: Runtime.ForOf calls the iterator's return() unguarded). -/
+def replaces : Frame → Bool | fot => true | _ => false
 def unwraps : Frame → Bool | xfe => true | _ => false
 /-- The frame replaces the *Exception (new stack) while keeping the value. -/
 def rethrows : Frame → Bool | js k => k.rethrows | fcv => true | _ => false
@@ -526,6 +531,13 @@ def applyFrame (idx : Nat) (f : Frame) (cjs : Bool) (fl : Flow) : Flow × List L
         match handleThrow o x [.marker] with
         | .returned e _ => (.normal, [⟨idx, .asyncReject e.val⟩])
         | _ => (.panic x o, []))
+  | .fot =>                                                              -- Runtime.ForOf (runtime.go): step under vm.try, then
+    (match vmTry (panicErr (callable cjs fl)) with                       --   `if ex != nil { iter.returnIter(); panic(ex) }`
+      | .ok => (.normal, [])                                             -- next iteration: the iterator is exhausted
+      | .ex _ =>                                                         -- returnIter() is NOT guarded: the Error thrown by the
+        (.panic (.exc ⟨.freshErr .error .other, .other⟩) .other,         --   iterator's return() leaves ForOf instead of `ex`
+          [⟨idx, .iterReturn⟩])
+      | .panic x o => (.panic x o, []))                                  -- vm.try re-panics what is not a JS exception
   | .pr => (fl, [])                                                      -- never applied (segments are split at pr / jaw)
   | .jaw => (fl, [])
 
